@@ -18,7 +18,9 @@ def showBody : Body → String
   | .msg m => s!"msg:{m.topic}"
 
 def showQ (h : HookSt) : String :=
-  String.intercalate "," (sortS (h.queues.map (fun p => s!"{p.1}:{p.2.items.length}")))
+  -- per peer: queue length and the ids its events carry (every queue numbers its own events: seed C16-3)
+  String.intercalate "," (sortS (h.queues.map (fun p =>
+    s!"{p.1}:{p.2.items.length}:{String.intercalate "+" (p.2.items.map (fun e => toString e.id))}")))
 
 def res (h : HookSt) (evs : List Body) : String :=
   -- events are observed in the peers' queues: without a peer nothing is observable
